@@ -67,10 +67,10 @@ def model(c, runs):
                          cfg=cfg_text(constants=dict(BASE, OpsA={"send", "close", "shutdown_write"}, OpsB={"close", "recv"}, Mut=mut),
                                       invariants=MINVS)))
     jobs.append(dict(name="simulate (spec -> code)", module="Channel_Gen", simulate=True, expect="behaviours",
-                     cfg=cfg_text(spec="GSpec", constants=dict(GEN, HoldBack=dc.holdback()), invariants=["GenEmit"]),
+                     cfg=cfg_text(spec="GSpec", constants=dict(GEN, **dc.gen_variant()), invariants=["GenEmit"]),
                      kw=dict(workers=1, simulate="num=%d" % (40 if c.quick else 500), extra=["-depth", "150", "-seed", str(c.seed + 1)])))
     res = dc.mc_batch(c, jobs, parallel=10)
-    gen = dict(GEN, HoldBack=dc.holdback())
+    gen = dict(GEN, **dc.gen_variant())
     # RP 1: drive the real code along each counterexample
     for name, a, b in pairs:
         r = res["pinned hand-over outside the lock: _send vs %s" % name]
